@@ -10,7 +10,7 @@ FIELDS = ("schema", "doc", "ok", "standalone", "typing", "iter")
 def run_doc_cases(chk):
     raw = os.path.join(chk.work, "doc_cases.ndjson")
     schemas = os.path.join(chk.work, "schemas.ndjson")
-    vlib.vh(["doc-cases", "--seed", chk.seed, "--depth2", 150 if chk.quick else 6000, "--every", 2 if chk.quick else 1,
+    vlib.vh(["doc-cases", "--seed", chk.seed, "--depth2", 150 if chk.quick else 6000, "--every", 2 if chk.quick else 1, "--merge-every", 4 if chk.quick else 1,
              "--schemas-out", schemas], stdout_path=raw, timeout=7000)
     allrows = list(vlib.read_ndjson(raw))
     crashes = [r for r in allrows if "crash" in r]
